@@ -123,6 +123,17 @@ def generate(run_seed, tier):
             for row in su:
                 row[j] = d.choice(levels)
         m2 = [d.uniform(10, 500) for _ in range(n)]
+        if sampler == 'polychord' and d.random() < 0.6:
+            # PolyChord's chain files carry weights scaled to a maximum of 1
+            w = [x / max(w) for x in w]
+        elif sampler == 'multinest' and nmodes > 1 and d.random() < 0.6:
+            # each mode of a MultiNest run holds its share of a total of 1
+            share = d.uniform(0.05, 0.9)
+            w = [x * share for x in w]
+        elif sampler == 'nestle' and d.random() < 0.2:
+            # (nestle's weights sum to one only up to the remaining evidence)
+            share = d.uniform(0.9, 1.0)
+            w = [x * share for x in w]
         modes.append({'family': fam, 'weights': w, 'samples_u': su,
                       'm2logl': m2})
     def gen_modes(nm):
